@@ -93,13 +93,13 @@ theorem push_area (s : SlSt) (c : Comp) (g u : Nat) : (s.push c g u).area = s.ar
 
 /-- the reader state after the optional reopen: unchanged when the component has not started, otherwise only
 `cont` is set (the piece already emitted is marked CONTINUE) -/
-theorem L_after_reopen (s : SlSt) (offset : Nat) (hinv : Inv s)
-    (hoff : offset ≠ 0 → (∃ xs d, s.open_ = xs ++ [⟨0, d⟩]) ∧ s.area < 3) (s1 : SlSt)
-    (hs1 : s1 = if 3 > s.area then s.reopen (decide (offset ≠ 0)) else s) :
-    Inv s1 ∧ 3 ≤ s1.area ∧ (offset = 0 → L s1 = L s) ∧
+theorem L_after_reopen (s : SlSt) (offset m : Nat) (hinv : Inv s)
+    (hoff : offset ≠ 0 → (∃ xs d, s.open_ = xs ++ [⟨0, d⟩]) ∧ s.area < m) (s1 : SlSt)
+    (hs1 : s1 = if m > s.area then s.reopen (decide (offset ≠ 0)) else s) (hm : m ≤ 250) :
+    Inv s1 ∧ m ≤ s1.area ∧ (offset = 0 → L s1 = L s) ∧
       (offset ≠ 0 → (L s1).out = (L s).out ∧ (L s1).cont = true) := by
   subst hs1
-  by_cases h3 : 3 > s.area
+  by_cases h3 : m > s.area
   · simp only [h3, if_true]
     refine ⟨reopen_inv _ _, by rw [reopen_area]; omega, ?_, ?_⟩
     · intro h0
@@ -120,11 +120,14 @@ theorem L_after_reopen (s : SlSt) (offset : Nat) (hinv : Inv s)
     have := (hoff hne).2
     omega
 
+/-- the smallest piece of a normal component -/
+def minOf (comp : Bytes) : Nat := if comp.isEmpty then 2 else 3
+
 /-- **one component**: the loop appends exactly the bytes of `comp` from `offset` on (with the separator in front when
 it starts the component), whatever the room left, splitting across records as needed. -/
 theorem slComp_normal (fuel : Nat) (s : SlSt) (comp : Bytes) (offset : Nat)
     (hfuel : comp.length - offset + 1 ≤ fuel) (hinv : Inv s)
-    (hoff : offset ≠ 0 → (∃ xs d, s.open_ = xs ++ [⟨0, d⟩]) ∧ s.area < 3) :
+    (hoff : offset ≠ 0 → (∃ xs d, s.open_ = xs ++ [⟨0, d⟩]) ∧ s.area < minOf comp ∧ offset < comp.length) :
     Inv (slComp fuel s comp false 0 offset) ∧
     (L (slComp fuel s comp false 0 offset)).out =
       (L s).out ++ (if offset = 0 then sepOf (L s) else []) ++ comp.drop offset ∧
@@ -132,12 +135,15 @@ theorem slComp_normal (fuel : Nat) (s : SlSt) (comp : Bytes) (offset : Nat)
   induction fuel generalizing s offset with
   | zero => omega
   | succ fuel ih =>
-    simp only [slComp, Bool.false_eq_true, if_false]
-    generalize hs1 : (if 3 > s.area then s.reopen (decide (offset ≠ 0)) else s) = s1
-    obtain ⟨hinv1, harea1, hL0, hLn⟩ := L_after_reopen s offset hinv hoff s1 hs1.symm
+    simp only [slComp, Bool.false_or, Bool.false_eq_true, if_false]
+    have hmin : (if comp.isEmpty = true then 2 else 3) = minOf comp := rfl
+    rw [hmin]
+    generalize hs1 : (if minOf comp > s.area then s.reopen (decide (offset ≠ 0)) else s) = s1
+    have hm250 : minOf comp ≤ 250 := by unfold minOf; split <;> omega
+    obtain ⟨hinv1, harea1, hL0, hLn⟩ := L_after_reopen s offset (minOf comp) hinv
+      (fun h => ⟨(hoff h).1, (hoff h).2.1⟩) s1 hs1.symm hm250
     generalize hrest : comp.drop offset = restc
     have hrl : restc.length = comp.length - offset := by rw [← hrest]; simp
-    -- the part of the reader state that the next piece sees
     have hpiece : ∀ d : Bytes, (slStep (L s1) ⟨0, d⟩).out =
         (L s).out ++ (if offset = 0 then sepOf (L s) else []) ++ d := by
       intro d
@@ -147,6 +153,7 @@ theorem slComp_normal (fuel : Nat) (s : SlSt) (comp : Bytes) (offset : Nat)
       · simp only [h0, if_false]
         have := hLn h0
         simp [sepOf, this.1, this.2]
+    have hmin2 : 2 ≤ minOf comp := by unfold minOf; split <;> omega
     by_cases hfin : 2 + restc.length ≤ s1.area
     · have hlen : (if 2 + restc.length > s1.area then s1.area - 2 else 2 + restc.length) = 2 + restc.length := by
         rw [if_neg]; omega
@@ -160,15 +167,28 @@ theorem slComp_normal (fuel : Nat) (s : SlSt) (comp : Bytes) (offset : Nat)
       · simp only [L, comps_push, slFold_snoc, slStep_plain]
     · have hgt : 2 + restc.length > s1.area := by omega
       simp only [hgt, if_true]
+      -- something is left, so the component is not empty and the room is at least 3
+      have hne : comp ≠ [] := by
+        intro h0
+        have h2 : minOf comp = 2 := by rw [h0]; rfl
+        have h3 : restc.length = 0 := by rw [hrl, h0]; simp
+        omega
+      have hm3 : minOf comp = 3 := by
+        unfold minOf
+        have : comp.isEmpty = false := by cases comp with | nil => exact absurd rfl hne | cons _ _ => rfl
+        simp [this]
       have hnotfinal : ¬ (offset + (s1.area - 2) ≥ comp.length) := by omega
       simp only [hnotfinal, if_false]
-      generalize hs2 : s1.push ⟨0, restc.take (s1.area - 2)⟩ (2 + (restc.take (s1.area - 2)).length) (s1.area - 2 + 2) = s2
+      have htl : (restc.take (s1.area - 2)).length = s1.area - 2 := by rw [List.length_take]; omega
+      generalize hs2 : s1.push ⟨0, restc.take (s1.area - 2)⟩ (2 + (restc.take (s1.area - 2)).length)
+        (2 + (restc.take (s1.area - 2)).length) = s2
       have hoff' : offset + (s1.area - 2) ≠ 0 := by omega
       have hinv2 : Inv s2 := by rw [← hs2]; exact push_inv _ _ _ _ hinv1
-      have hpre : offset + (s1.area - 2) ≠ 0 → (∃ xs d, s2.open_ = xs ++ [⟨0, d⟩]) ∧ s2.area < 3 := by
+      have hpre : offset + (s1.area - 2) ≠ 0 →
+          (∃ xs d, s2.open_ = xs ++ [⟨0, d⟩]) ∧ s2.area < minOf comp ∧ offset + (s1.area - 2) < comp.length := by
         intro _
         rw [← hs2]
-        exact ⟨⟨s1.open_, _, rfl⟩, by rw [push_area]; omega⟩
+        exact ⟨⟨s1.open_, _, rfl⟩, by rw [push_area, htl, hm3]; omega, by omega⟩
       have hf : comp.length - (offset + (s1.area - 2)) + 1 ≤ fuel := by omega
       obtain ⟨i1, i2, i3, i4⟩ := ih s2 (offset + (s1.area - 2)) hf hinv2 hpre
       simp only [hoff', if_false, List.append_nil] at i2
@@ -188,7 +208,7 @@ theorem slComp_normal (fuel : Nat) (s : SlSt) (comp : Bytes) (offset : Nat)
 theorem slComp_special (fuel : Nat) (s : SlSt) (comp : Bytes) (flag : Nat) (hinv : Inv s) :
     Inv (slComp (fuel + 1) s comp true flag 0) ∧
     L (slComp (fuel + 1) s comp true flag 0) = slStep (L s) ⟨flag, []⟩ := by
-  simp only [slComp, if_true]
+  simp only [slComp, Bool.true_or, if_true]
   by_cases h : 2 > s.area
   · simp only [h, if_true, ne_eq, not_true_eq_false, decide_false]
     refine ⟨push_inv _ _ _ _ (reopen_inv _ _), ?_⟩
@@ -391,4 +411,125 @@ theorem symlink_reassembles (hasCE : Bool) (a a' : Acc) (target : Bytes) (ht : t
     rw [hfun, List.range_eq_range', foldl_zip_range']
     exact go_reassembles _ (by intro _; rfl) (by simp [L, comps, allComps, slFold]) target ht
 
+/-! ### without a continuation entry nothing goes to the continuation area -/
+
+/-- bytes one component takes in an SL record -/
+def need (c : Bytes) : Nat := 2 + (if c = [46] ∨ c = [46, 46] ∨ c = [47] then 0 else c.length)
+
+def InDr (s : SlSt) : Prop := s.inDr = true ∧ s.doneCe = []
+
+theorem slComp_fits_normal (fuel : Nat) (s : SlSt) (comp : Bytes) (h : InDr s) (hroom : 2 + comp.length ≤ s.area) :
+    InDr (slComp (fuel + 1) s comp false 0 0) ∧ (slComp (fuel + 1) s comp false 0 0).area = s.area - (2 + comp.length) := by
+  simp only [slComp, Bool.false_or, Bool.false_eq_true, if_false, List.drop_zero, Nat.zero_add]
+  have hmin : ¬ ((if comp.isEmpty = true then 2 else 3) > s.area) := by
+    cases comp with
+    | nil => simp at hroom ⊢; omega
+    | cons x xs => simp at hroom ⊢; omega
+  simp only [hmin, if_false]
+  have hlen : ¬ (2 + comp.length > s.area) := by omega
+  simp only [hlen, if_false]
+  have htake : comp.take (2 + comp.length) = comp := List.take_of_length_le (by omega)
+  have hfinal : 2 + comp.length ≥ comp.length := by omega
+  simp only [hfinal, if_true, htake]
+  exact ⟨h, rfl⟩
+
+theorem slComp_fits_special (fuel : Nat) (s : SlSt) (comp : Bytes) (flag : Nat) (h : InDr s) (hroom : 2 ≤ s.area) :
+    InDr (slComp (fuel + 1) s comp true flag 0) ∧ (slComp (fuel + 1) s comp true flag 0).area = s.area - 2 := by
+  simp only [slComp, Bool.true_or, if_true]
+  have hmin : ¬ (2 > s.area) := by omega
+  simp only [hmin, if_false]
+  exact ⟨h, rfl⟩
+
+theorem need_le (i : Nat) (c : Bytes) (hns : (47 : UInt8) ∉ c) (s : SlSt) (h : InDr s) (hroom : need c ≤ s.area) :
+    InDr (compStep i c s) ∧ (compStep i c s).area + need c = s.area := by
+  unfold compStep
+  by_cases h0 : i = 0 ∧ c = []
+  · simp only [h0, and_self, if_true, List.length_nil, Nat.zero_add]
+    obtain ⟨a, b⟩ := slComp_fits_special 2 s [47] 8 h (by simp [need, h0.2] at hroom; omega)
+    refine ⟨a, ?_⟩
+    rw [b]; simp [need, h0.2] at hroom ⊢; omega
+  · simp only [h0, if_false]
+    by_cases h1 : c = [46]
+    · subst h1
+      simp only [if_true]
+      obtain ⟨a, b⟩ := slComp_fits_special 2 s [46] 2 h (by simp [need] at hroom; omega)
+      exact ⟨a, by rw [b]; simp [need] at hroom ⊢; omega⟩
+    · simp only [h1, if_false]
+      by_cases h2 : c = [46, 46]
+      · subst h2
+        simp only [if_true]
+        obtain ⟨a, b⟩ := slComp_fits_special 2 s [46, 46] 4 h (by simp [need] at hroom; omega)
+        exact ⟨a, by rw [b]; simp [need] at hroom ⊢; omega⟩
+      · simp only [h2, if_false]
+        have h3 : c ≠ [47] := by intro h3; subst h3; exact hns (by simp)
+        have hneed : need c = 2 + c.length := by simp [need, h1, h2, h3]
+        obtain ⟨a, b⟩ := slComp_fits_normal (c.length + 2) s c h (by omega)
+        exact ⟨a, by rw [b, hneed]; omega⟩
+
+theorem splitSlash_no_slash (t : Bytes) : ∀ c ∈ splitSlash t, (47 : UInt8) ∉ c := by
+  induction t with
+  | nil => intro c hc; simp [splitSlash] at hc; subst hc; simp
+  | cons x xs ih =>
+    intro c hc
+    simp only [splitSlash] at hc
+    split at hc
+    · rcases List.mem_cons.mp hc with rfl | hc
+      · simp
+      · exact ih c hc
+    · rename_i hx
+      cases hs : splitSlash xs with
+      | nil => simp [hs] at hc; subst hc; simp only [List.mem_singleton]; exact fun h => hx h.symm
+      | cons p ps =>
+        rw [hs] at hc ih
+        rcases List.mem_cons.mp hc with rfl | hc
+        · intro hm
+          rcases List.mem_cons.mp hm with h | h
+          · exact hx h.symm
+          · exact ih p List.mem_cons_self h
+        · exact ih c (List.mem_cons_of_mem _ hc)
+
+theorem go_inDr (k : Nat) (cs : List Bytes) (hns : ∀ c ∈ cs, (47 : UInt8) ∉ c) (s : SlSt) (h : InDr s)
+    (hroom : (cs.map need).sum ≤ s.area) : InDr (go k cs s) := by
+  induction cs generalizing k s with
+  | nil => exact h
+  | cons c cs ih =>
+    simp only [go]
+    simp only [List.map_cons, List.sum_cons] at hroom
+    obtain ⟨a, b⟩ := need_le k c (hns c List.mem_cons_self) s h (by omega)
+    exact ih (k + 1) (fun x hx => hns x (List.mem_cons_of_mem _ hx)) _ a (by omega)
+
+/-- **no continuation entry, no continuation data**: when `_new_symlink` is called without a CE record and does not give up,
+every SL record it makes is in the directory record. -/
+theorem newSymlink_noCE (a a' : Acc) (target : Bytes) (h : newSymlink false a target = some a') : a'.ce = a.ce := by
+  unfold newSymlink at h
+  simp only at h
+  split at h
+  · cases h
+  · rename_i hfit
+    simp only [Bool.not_false, and_true, Nat.not_lt] at hfit
+    simp only [Option.some.injEq] at h
+    subst h
+    have hfun : (fun (s : SlSt) (x : Nat × Bytes) =>
+        match x with
+        | (i, c) =>
+          if i = 0 ∧ c = [] then slComp (c.length + 3) s [47] true 8 0
+          else if c = [46] then slComp 3 s c true 2 0
+          else if c = [46, 46] then slComp 3 s c true 4 0
+          else slComp (c.length + 3) s c false 0 0) = fun s p => compStep p.1 p.2 s := by
+      funext s p; cases p; rfl
+    simp only [hfun, List.range_eq_range', foldl_zip_range', Bool.not_false, Bool.true_or, if_true]
+    have hin := go_inDr 0 (splitSlash target) (splitSlash_no_slash target)
+      { cur := a.cur + 5, inDr := true, area := allowed - a.cur - 5, open_ := [], doneDr := [], doneCe := [] }
+      ⟨rfl, rfl⟩ (by
+        have : (List.map need (splitSlash target)).sum =
+            (List.map (fun c => 2 + if c = [46] ∨ c = [46, 46] ∨ c = [47] then 0 else c.length) (splitSlash target)).sum := rfl
+        simp only at this ⊢
+        omega)
+    have hcl : (closeSl (go 0 (splitSlash target)
+        { cur := a.cur + 5, inDr := true, area := allowed - a.cur - 5, open_ := [], doneDr := [], doneCe := [] }) false).doneCe = [] := by
+      unfold closeSl
+      rw [hin.1]; simp [hin.2]
+    rw [hcl]; simp
+
 end Pycdlib.Susp
+
